@@ -80,6 +80,14 @@ Definition get_prop (r : rstate) (round phase : N) : option lmsg :=
   | Some e => if vw_root (q_view (m_qc (snd e))) =? r_root r then Some (snd e) else None
   | None => None
   end.
+(* AddProposal, PROPOSE / PRECOMMIT / COMMIT: a stored message whose sender is the proposer its own certificate names (the
+   certificate's signers signed that name) is never replaced by a message whose sender is somebody else - a validator that
+   re-signs the leader's message under its own key does not push the leader's message out *)
+Definition keeps (r : rstate) (m : lmsg) : bool :=
+  match find (fun e => (fst (fst e) =? m_round m) && (snd (fst e) =? m_phase m)) (r_props r) with
+  | Some e => (q_proposer (m_qc (snd e)) =? m_from (snd e)) && negb (q_proposer (m_qc m) =? m_from m)
+  | None => false
+  end.
 Definition put_prop (m : lmsg) (r : rstate) : rstate :=
   mkR (r_root r) (r_round r) (r_phase r) (r_lock r) (r_blk r) (r_bhc r) (r_res r) (r_proposer r)
       ((m_round m, m_phase m, m) :: filter (fun e => negb ((fst (fst e) =? m_round m) && (snd (fst e) =? m_phase m))) (r_props r))
@@ -103,7 +111,7 @@ Definition recv_lmsg (c : conf) (r : rstate) (m : lmsg) : rstate :=
     if m_phase m =? Phase_PROPOSE then
       if (q_proposer q =? m_from m) && m_hasprop m then put_prop m r else r
     else
-      if (negb (r_blk r =? 0)) && (q_block q =? block_hash r) && (q_results q =? r_res r) then put_prop m r else r
+      if negb (keeps r m) && (negb (r_blk r =? 0)) && (q_block q =? block_hash r) && (q_results q =? r_res r) then put_prop m r else r
   | _ => r
   end
   end.
